@@ -195,7 +195,7 @@ func (fu *folderUpload) FormattedPath() string {
 
 	// TODO: implement scanner interface instead?
 	for i := uint16(0); i < pathItemLen; i++ {
-		segLen := pathData[2]
+		segLen := int(pathData[2])
 		pathSegments = append(pathSegments, string(pathData[3:3+segLen]))
 		pathData = pathData[3+segLen:]
 	}
